@@ -150,11 +150,14 @@ def corpus(tier):
     big = M(b"GET", b"/" + b"a" * 50, b"HTTP/1.1", [(b"X", b"y" * 10)])
     bigb = M(b"POST", b"/", b"HTTP/1.1", [(b"Content-Length", b"14", "cl")], b"abcdefghijklmn")
     bigc = M(b"POST", b"/", b"HTTP/1.1", [(b"Transfer-Encoding", b"chunked", "te")], gen.chunked_body([9, 8]))
-    singles = {"get": g, "post": p, "chunked": ch, "chunked-ext-trailer": cht, "expect": ex, "get10": g10, "close": cl, "fold": fold, "cl+te": clte, "big-head": big, "big-body": bigb, "big-chunked": bigc}
+    # a chunked body whose raw size (11) stays just below the body limit of the "small" configuration (12): the
+    # bytes of the next request arriving in the same read must not be counted against it
+    ch1 = M(b"POST", b"/", b"HTTP/1.1", [(b"Transfer-Encoding", b"chunked", "te")], gen.chunked_body([1], b"", ()))
+    singles = {"chunked-1": ch1, "get": g, "post": p, "chunked": ch, "chunked-ext-trailer": cht, "expect": ex, "get10": g10, "close": cl, "fold": fold, "cl+te": clte, "big-head": big, "big-body": bigb, "big-chunked": bigc}
     R = gen.render
     for name, t in singles.items():
         out.append((name, R(t)))
-    pairs = [("get", "get"), ("post", "get"), ("chunked", "get"), ("chunked-ext-trailer", "post"), ("get", "expect"), ("expect", "get"), ("get10", "get"), ("close", "get"), ("cl+te", "get"), ("big-body", "get"), ("post", "chunked")]
+    pairs = [("get", "get"), ("post", "get"), ("chunked", "get"), ("chunked-ext-trailer", "post"), ("get", "expect"), ("expect", "get"), ("get10", "get"), ("close", "get"), ("cl+te", "get"), ("big-body", "get"), ("post", "chunked"), ("chunked-1", "get"), ("chunked-1", "chunked-1")]
     for a, b in pairs:
         out.append((a + "+" + b, R(singles[a]) + R(singles[b])))
     out.append(("crlf-get-crlf-get", b"\r\n" + R(g) + b"\r\n" + R(g)))
